@@ -23,7 +23,10 @@
   by theorems in Props/C03):
 
     commit   : walAndIndex → idmapApply → publishNodeLabels → publishRun            (commit point: publishRun)
-    compact  : persistSegment → sinkProps → walManifest → storeRoots → clearRuns → setSegments
+    compact  : [lock, read runs] → persistSegment → sinkProps → walManifest → storeRoots → clearRuns → setSegments
+               (the segment, the sunk properties and `pending` come from the run list READ at the start; clearRuns
+                drops ALL published runs; where that read sits relative to the writer lock is `readBeforeLock`,
+                regenerated as `Generated.compactRunsReadUnderLock`)
     snapshot : scanI2e → readRuns → readSegments → readNodeLabels → readRoots
 -/
 namespace Nervus.SnapLTS
@@ -62,12 +65,15 @@ structure State where
   hasIndex : Bool
   committed : Nat            -- ghost: the Spec's state is "transactions 0 … committed-1"
   pending : List Nat         -- compaction: the runs being merged
+  readBeforeLock : Bool      -- the source reads `published_runs` in `compact` BEFORE taking the writer lock
+  cap : Option (List Nat)    -- the run list compaction works from (captured at its read of `published_runs`)
   w : WPc
   snaps : Nat → Option Snap
 
 inductive Label where
   | commitStep               -- next step of a commit (starts one when the writer is idle)
   | compactStep              -- next step of a compaction (starts one when idle and runs ≠ [])
+  | compactRead              -- `compact` reads `published_runs` WITHOUT the writer lock (only if the source does so)
   | readStep (j : Nat)       -- next field read of snapshot `j` (starts it when absent)
   | dropSnap (j : Nat)
   deriving DecidableEq, Repr
@@ -121,15 +127,25 @@ def step (s : State) : Label → Option State
     | .commit 3 =>    -- publishRun (commit point)
       some (markAll touchCommit { s with w := .idle, runs := s.committed :: s.runs, committed := s.committed + 1 })
     | _ => none
+  | .compactRead =>     -- a compactor thread captures the run list while a writer may be in flight
+    if s.readBeforeLock && s.cap.isNone && !isCompact s.w then
+      some { s with cap := if s.runs.isEmpty then none else some s.runs }   -- empty: `compact` returns at once
+    else none
   | .compactStep =>
     match s.w with
-    | .idle => if s.runs.isEmpty then none else
-      some (markAll touchCompact { s with w := .compact 1 })                       -- persistSegment
-    | .compact 1 => some (markAll touchSink { s with w := .compact 2, store := s.runs ++ s.store })  -- sinkProps (in place)
+    | .idle =>        -- takes the writer lock (no commit in flight); persistSegment
+      if s.readBeforeLock then
+        match s.cap with
+        | some _ => some (markAll touchCompact { s with w := .compact 1 })
+        | none => none
+      else if s.runs.isEmpty then none else
+      some (markAll touchCompact { s with w := .compact 1, cap := some s.runs })   -- the read happens under the lock
+    | .compact 1 => some (markAll touchSink { s with w := .compact 2, store := s.cap.getD [] ++ s.store })  -- sinkProps (in place)
     | .compact 2 => some (markAll touchCompact { s with w := .compact 3 })         -- walManifest
     | .compact 3 => some (markAll touchCompact { s with w := .compact 4, root := true })  -- storeRoots
-    | .compact 4 => some (markAll touchCompact { s with w := .compact 5, pending := s.runs, runs := [] })  -- clearRuns
-    | .compact 5 => some (markAll touchCompact { s with w := .idle, segs := s.pending ++ s.segs, pending := [] })  -- setSegments
+    | .compact 4 =>   -- clearRuns: ALL published runs are dropped, whatever list the segment was built from
+      some (markAll touchCompact { s with w := .compact 5, pending := s.cap.getD [], runs := [] })
+    | .compact 5 => some (markAll touchCompact { s with w := .idle, segs := s.pending ++ s.segs, pending := [], cap := none })  -- setSegments
     | _ => none
   | .readStep j =>
     match s.snaps j with
@@ -147,9 +163,9 @@ def step (s : State) : Label → Option State
     | some _ => some (setSnap s j none)
     | none => none
 
-def init (hasIndex : Bool) : State :=
+def init (hasIndex : Bool) (readBeforeLock : Bool := false) : State :=
   { nodes := 0, labels := 0, runs := [], segs := [], root := false, store := [], index := [], hasIndex := hasIndex,
-    committed := 0, pending := [], w := .idle, snaps := fun _ => none }
+    committed := 0, pending := [], readBeforeLock := readBeforeLock, cap := none, w := .idle, snaps := fun _ => none }
 
 inductive Reach (s0 : State) : State → Prop where
   | refl : Reach s0 s0
